@@ -377,6 +377,6 @@ func (c *Check) serveShutdown(rule string) {
 				okD = hit != nil
 			}
 		}
-		c.require(okD, "C20.2 start-stop-symmetry", "Server.Serve", "deferred shutdown atomic", p.Pos(fn.Pos()),
+		c.require(okD, rule, "Server.Serve", "deferred shutdown atomic", p.Pos(fn.Pos()),
 			"the deferred shutdown stops every peer (synchronously), clears serving and closes doneServingCh inside one critical section, so no AddPeer can start a peer that is never stopped")
 }
